@@ -428,6 +428,20 @@ def check_ml_history(case, env, data, path):
             def recs(out):
                 return [ln for ln in out.split(b"\n") if ln.startswith(path.encode() + b":")]
         a, b = recs(alone[1]), recs(both[1])
+        if mname == "history-vimgrep":
+            # ... and an empty file after a file with matches has nothing to report
+            env.write("b_empty.txt", b"")
+            for route in (["--pre", "/bin/cat"], ["--no-mmap"]):
+                rep["evaluations"] += 1
+                em = common.run_rg(fargs + margs + ["-H", "-j1"] + route + pats + ["a_first.txt", "b_empty.txt", path], env.tmp, env.home)
+                if em is not None and em[0] != 2:
+                    env.count("rg_runs")
+                    ghost = [ln for ln in em[1].split(b"\n") if ln.startswith(b"b_empty.txt:")]
+                    if ghost:
+                        env.viol("C09:history-empty-file:records-for-an-empty-file",
+                                 "an empty file searched after another one reports %s" % esc(ghost[0][:100]),
+                                 {"kind": "cli", "args": case["args"], "pattern": case["pattern"], "input": case["input"],
+                                  "argv": fargs + margs + ["-j1"] + route + pats + ["a_first.txt", "b_empty.txt", path]})
         if a != b:
             i = next((k for k in range(min(len(a), len(b))) if a[k] != b[k]), min(len(a), len(b)))
             env.viol("C09:%s:results-depend-on-the-previous-file" % mname,
